@@ -351,6 +351,16 @@ func genOptCase0(r *rng) optCase {
 		k := []string{"include", "exclude"}[r.n(2)]
 		return optCase{argsA: append([]string{"--" + k + "-regexp", re, "--show-refs"}, out...), argsB: append([]string{"--" + k, "/" + re + "/", "--show-refs"}, out...), expect: "equal"}
 	case 4: // --refgroup G == --include @G
+		if r.coin(1, 2) {
+			// a group nested three or more levels deep whose middle levels exist only implicitly, below an
+			// ancestor with a filter of its own, and whose own pattern reaches outside that ancestor
+			// (seeded changes C06n / C14n stopped the upward walk at the first filterless group)
+			outer := []string{"refs/heads", "refs/tags", "refs/remotes"}[r.n(3)]
+			deep := []string{"mine.topic.wip", "mine.a.b.c", "mine.x.y"}[r.n(3)]
+			re := []string{".*main.*", "refs/.*/v1", ".*/(main|v1|deep)", "refs/.*"}[r.n(4)]
+			cfg := []string{"refgroup.mine.include=" + outer, "refgroup." + deep + ".includeRegexp=" + re}
+			return optCase{cfgA: cfg, cfgB: cfg, argsA: append([]string{"--refgroup", deep}, out...), argsB: append([]string{"--include", "@" + deep}, out...), expect: "equal"}
+		}
 		g := []string{"branches", "tags", "remotes", "notes"}[r.n(4)]
 		return optCase{argsA: append([]string{"--refgroup", g}, out...), argsB: append([]string{"--include", "@" + g}, out...), expect: "equal"}
 	case 5: // gitconfig has the effect of the option when no option of the family is given
@@ -505,7 +515,7 @@ func init() {
 			refs = uniq
 			var roots []int
 			for _, rf := range refs {
-				idx, _ := strconv.Atoi(strings.SplitN(rf, "=", 2)[1])
+				idx, _ := refIdx(strings.SplitN(rf, "=", 2)[1])
 				roots = append(roots, idx)
 			}
 			shallow := "0"
@@ -614,7 +624,20 @@ func init() {
 				first = nums
 				wc = witnessCheck(rr, wits)
 			}
-			return []string{"ran", strings.Join(codes, ","), strings.Join(hashes, ","), first, wc}
+			// HEAD is per worktree: in the linked worktree (detached at the first commit) `git-sizer HEAD`
+			// measures THAT commit (seeded change C13n resolved the common git dir, i.e. the main work tree's HEAD)
+			wtHead := "-"
+			if cs := indicesOf(objs, 'c'); wt != "" && len(cs) > 0 {
+				nargs := []string{"--json", "--json-version=1", "--no-progress", "--names=none"}
+				o1, _, c1 := runCmd(wt, env, nil, sizerBin(), append(append([]string{}, nargs...), "HEAD")...)
+				o2, _, c2 := runCmd(w, env, nil, sizerBin(), append(append([]string{}, nargs...), rr.oids[cs[0]])...)
+				if c1 == c2 && bytes.Equal(o1, o2) {
+					wtHead = "1"
+				} else {
+					wtHead = "0"
+				}
+			}
+			return []string{"ran", strings.Join(codes, ","), strings.Join(hashes, ","), first, wc, wtHead}
 		},
 		class: func(in, res []string) string {
 			c := "plain"
@@ -652,11 +675,22 @@ func init() {
 				objs = realSizes(objs, times)
 				args, roots = nil, nil
 				for _, rf := range refs { // all references are selected
-					idx, _ := strconv.Atoi(strings.SplitN(rf, "=", 2)[1])
+					idx, _ := refIdx(strings.SplitN(rf, "=", 2)[1])
 					roots = append(roots, idx)
 				}
 				if style == "none" {
 					style = "full"
+				}
+				if r.coin(1, 2) {
+					// the same tied objects named as ROOT arguments (branches and tags, 4-8 different objects): they
+					// must be fed in command-line order on every run (seeded C17n ranged over a map of them)
+					roots = nil
+					for _, rf := range refs {
+						kv := strings.SplitN(rf, "=", 2)
+						idx, _ := refIdx(kv[1])
+						args = append(args, kv[0])
+						roots = append(roots, idx)
+					}
 				}
 			}
 			if r.n(8) == 0 {
@@ -691,7 +725,7 @@ func init() {
 				objs = realSizes(objs, times)
 				args, roots = nil, nil
 				for _, rf := range refs {
-					idx, _ := strconv.Atoi(strings.SplitN(rf, "=", 2)[1])
+					idx, _ := refIdx(strings.SplitN(rf, "=", 2)[1])
 					roots = append(roots, idx)
 				}
 			}
@@ -801,7 +835,7 @@ func init() {
 				refs = append(refs, fmt.Sprintf("refs/heads/m/*5000=%d", tgt))
 				args, roots = nil, nil
 				for _, rf := range refs {
-					idx, _ := strconv.Atoi(strings.SplitN(rf, "=", 2)[1])
+					idx, _ := refIdx(strings.SplitN(rf, "=", 2)[1])
 					roots = append(roots, idx)
 				}
 				target = []string{"rev-list", "rev-list", "cat-file --batch-check", "cat-file --batch --buffer"}[r.n(4)]
